@@ -3,7 +3,7 @@
 
    One forward call with the adaptation update running (adapt = true) on a column with B samples:
      - spikes, voltages, refractory times of sample b are those of the batch-1 instance on sample b's input
-       started from the same adaptation ([forward_sample_dynamics] in NeuronBatch.v, any number type);
+       started from the same adaptation ([neuron_forward_sample_dynamics] in NeuronBatch.v, any number type);
      - every entry of the NEW adaptation is the batch mean (torch.mean(value, 0) in the adaptation setter,
        inferno/neural/neurons/mixins.py:52-57, 103-108) of the entries the B batch-1 instances compute
        ([neuron_adaptation_is_batch_mean] below).
@@ -112,7 +112,7 @@ Theorem neuron_forward_coupling lock cs xs B :
          nth k (ad RN col') 0 = batch_mean RN (map (fun b => nth k (ad1 lock col row b) 0) (seq 0 B))).
 Proof.
   intros Hs Hr Ha. cbv zeta. split.
-  - intros b Hb. exact (forward_sample_dynamics RN c p b B true lock cs xs Hb Hs Hr).
+  - intros b Hb. exact (neuron_forward_sample_dynamics RN c p b B true lock cs xs Hb Hs Hr).
   - unfold forward. cbn [snd]. intros i. revert cs xs Hs Hr.
     induction i as [|i IH]; intros [|col0 cs] [|row0 xs] Hs Hr col row Hc Hx; cbn in Hc, Hx; try discriminate.
     + injection Hc as ->. injection Hx as ->.
